@@ -140,9 +140,10 @@ class Pair:
         except ValueError as e:
             if "retried too many times" not in str(e):
                 self.viol.append(("sender_raised", "unexpected error from maybe_retry", repr(e)))
-            elif not self.blackhole and self.lost + self.early_used < MAX_RETRIES:
+            elif not self.blackhole and not self.aged and self.lost + self.early_used < MAX_RETRIES:
                 # by the time it raises, MAX_RETRIES transmissions have gone unanswered: legitimate only if each of them
-                # (or its Ack) was lost, or the timer fired before the answer could arrive
+                # (or its Ack) was lost, or the timer fired before the answer could arrive (early timers; after the
+                # one-hour `age` jump every frame still in flight counts as delayed beyond any grace)
                 self.viol.append(("gave_up_on_reachable_peer", "sender raised 'retried too many times' although fewer frames were lost than transmissions went unanswered",
                                   f"{s}: {e}; frames lost {self.lost}, early timers {self.early_used}, handed up at peer: {self.handed[self.routes.get(s, 'X')]}"))
             self.gave_up[s].add(str(e))
